@@ -17,6 +17,10 @@ CLAIMED['C11'] = dict(level='proof', design='DESIGN.md section 4 (C11)',
    text='Deductive proof per small capacity instance (L = 3 for every method, L = 5 for mutators and compare in quick; 2, 3, 5, 8 thorough): content postconditions written from the C++ standard\'s description of basic_string (whole view: length and every character equals the std::string result cut at L; observers return std::string\'s result; == and != complementary) enforced with goto-instrument --dfcc for all contents and all in-domain arguments. Deviations that are genuine and not repaired are excluded as input regions and reported as KNOWN-FINDING.',
    note='Per-instance; source strings <= L+3 characters (bounded); NUL-free contents (the property quantifies over printable contents). Iteration in both directions, cross-capacity and iterator overloads, constructors not under contract. Trusted base as C10. Four open known findings (empty search string, empty character set for *_not_of, start position not clamped in the find_last family, empty ranges in the two-range compare).',
    technique='contract-based deductive verification: content postconditions (std::string semantics as finite expansions over ghost pre-state), CBMC code contracts (goto-instrument --dfcc), SAT back end')
+CLAIMED['C19'] = dict(level='proof', design='DESIGN.md section 4 (C19)',
+   text='Deductive proof per buffer size (N = 1, 2, 3, 8 with the empty policy; N = 1..4 with the counting policy): every public member of ReadBuffer/WriteBuffer is called once from an arbitrary state satisfying the representation invariant (window mirrors the source / sink ++ buffered = everything appended) and the invariant plus the per-call postconditions are discharged by CBMC; the preconditions of the environment hooks readData/writeData are obligations at every call. An inductive invariant covers every history of request sizes and every chunking of the source, which no finite test list does.',
+   note='Harness mode (pre/post as assume/assert around one call of the real member; no assigns-frame check, replaced by guard bytes and exact-size blocks). Per instance, not for all N. Trusted: CBMC C++ front end on the textually instantiated shadow headers (rules incl. R-NSDMI listed in the evidence), stand-in <memory>, environment contract (source delivers 1..len bytes; termination not claimed), ghost normalisations (stream position and counters start at 0).',
+   technique='contract-based deductive verification: inductive representation invariant + per-call postconditions discharged by CBMC (harness mode), environment hooks as assumed contracts with checked preconditions')
 NA = {}
 def main():
     props = [json.loads(l) for l in open(os.path.join(V, 'properties.jsonl'))]
